@@ -351,6 +351,7 @@ class MafSorter(Sorter):
         scheme: Optional['MafScheme'] = None,
         max_objects_in_ram: int = 10000,
         *args: Any,
+        validation_stringency: ValidationStringency = ValidationStringency.Strict,
         **kwargs: Any,
     ):
         """
@@ -358,6 +359,8 @@ class MafSorter(Sorter):
         :param sort_order_name: the canonical name of the sort order
         :param scheme: the scheme to use for the codec
         :param max_objects_in_ram: the maximum number of MafRecords in RAM.
+        :param validation_stringency: the stringency with which records are
+        re-read from the temporary files
         :param so_args: arguments to the sort order constructor
         :param so_kwargs: keyword arguments to the sort order constructor
         """
@@ -367,6 +370,8 @@ class MafSorter(Sorter):
 
         super(MafSorter, self).__init__(
             max_objects_in_ram=max_objects_in_ram,
-            codec=MafSorterCodec(scheme=scheme),
+            codec=MafSorterCodec(
+                scheme=scheme, validation_stringency=validation_stringency
+            ),
             key_func=sort_order.sort_key(),
         )
